@@ -558,6 +558,46 @@ fn gen_varg(r: &mut Rng, len: usize, gen: &mut dyn FnMut(&mut Rng, usize) -> f64
     }
 }
 
+
+// ------------------------------------------------------------------ traced solves, twins
+use clarabel::verif_hooks::trace as tr;
+/// the raw iterates (x, s, z, tau, kappa) seen by `DefaultInfo::update`, one per iteration,
+/// as bit patterns
+fn solve_traced(s: &mut DefaultSolver<f64>) -> Option<Vec<Vec<u64>>> {
+    tr::start();
+    let ok = guarded(|| s.solve()).is_some();
+    let ev = tr::take();
+    if !ok { return None; }
+    Some(ev.into_iter().filter_map(|e| match e {
+        tr::Event::Vars { x, s, z, tau, kappa } => {
+            let mut v = bits(&x); v.extend(bits(&s)); v.extend(bits(&z)); v.push(tau.to_bits()); v.push(kappa.to_bits()); Some(v)
+        }
+        _ => None,
+    }).collect())
+}
+fn apply_update_only(s: &mut DefaultSolver<f64>, op: &Op) -> Option<usize> {
+    if matches!(op, Op::Solve) { return Some(9); }
+    apply(s, op)
+}
+/// Coq conjuncts about the start of a solve and its trajectory against a twin (same
+/// constructor data, same update operations, never solved before)
+fn twin_parts(traj_u: &[Vec<u64>], traj_t: &[Vec<u64>], it_u: u32, it_t: u32) -> Vec<String> {
+    let mut parts = vec![];
+    let same = traj_u == traj_t;
+    parts.push(format!("c08_traj {} {} {}", same, cn(it_u as usize), cn(it_t as usize)));
+    if let (Some(a), Some(b)) = (traj_u.first(), traj_t.first()) {
+        let (fa, fb) = (unbits(a), unbits(b));
+        if all_finite(&fa) && all_finite(&fb) {
+            parts.push(format!("c08_same {} {}", dyl(&fa), dyl(&fb)));
+            let n = fa.len();
+            parts.push(format!("c08_start {} {}", cdy(fa[n - 2]), cdy(fa[n - 1])));
+        } else if a != b {
+            parts.push("1%N".into());
+        }
+    }
+    parts
+}
+
 fn res_code(r: &Result<(), DataUpdateError>) -> usize {
     match r {
         Ok(()) => 0,
@@ -707,6 +747,7 @@ fn run_case(sink: &mut CaseSink, stats: &mut Stats, case_seed: u64, special: Opt
     let inv_rate = if special.is_some() { 2 } else { 4 + r.below(4) };
     let mut hist: Vec<String> = vec![];
     let mut ops_json: Vec<Value> = vec![];
+    let mut ops_done: Vec<Op> = vec![];
     let mut aborted = false;
     let mut findings: Vec<Value> = vec![];
     for step in 0..hlen {
@@ -818,6 +859,7 @@ fn run_case(sink: &mut CaseSink, stats: &mut Stats, case_seed: u64, special: Opt
             cchg(&now.b, &last.b), cchg(&now.kkt, &last.kkt), copt(nq), copt(nb), sync
         ));
         ops_json.push(op.json());
+        ops_done.push(op.clone());
         last = now;
     }
     let mut input = input0.clone();
@@ -840,10 +882,29 @@ fn run_case(sink: &mut CaseSink, stats: &mut Stats, case_seed: u64, special: Opt
         stats.hit("final-skipped-b-above-infinity-bound");
         return;
     }
-    if guarded(|| solver.solve()).is_none() {
-        stats.hit("final-solve-panicked");
-        sink.case("final", input.clone(), "1%N".into(), &[&stream, "panic"]);
-        return;
+    let traj_u = match solve_traced(&mut solver) {
+        Some(t) => t,
+        None => {
+            stats.hit("final-solve-panicked");
+            sink.case("final", input.clone(), "1%N".into(), &[&stream, "panic"]);
+            return;
+        }
+    };
+    // twin: same constructor data, same update operations, no earlier solve
+    let twin = guarded(|| {
+        let mut t = DefaultSolver::new(&prob.P, &prob.q, &prob.A, &prob.b, &cones, st.clone());
+        for o in ops_done.iter() { apply_update_only(&mut t, o); }
+        let tj = solve_traced(&mut t);
+        (t, tj)
+    });
+    let mut twin_conj: Vec<String> = vec![];
+    match twin {
+        Some((t, Some(traj_t))) => {
+            twin_conj = twin_parts(&traj_u, &traj_t, solver.solution.iterations, t.solution.iterations);
+            stats.hit(if traj_u == traj_t { "twin-trajectory-bitwise-equal" } else { "twin-trajectory-DIFFERS" });
+            if solver.solution.status != t.solution.status { stats.hit("twin-status-differs"); }
+        }
+        _ => stats.hit("twin-failed"),
     }
     let Pu = CscMatrix { m: patP.m, n: patP.n, colptr: patP.colptr.clone(), rowval: patP.rowval.clone(), nzval: uP.clone() };
     let Au = CscMatrix { m: patA.m, n: patA.n, colptr: patA.colptr.clone(), rowval: patA.rowval.clone(), nzval: uA.clone() };
@@ -866,7 +927,7 @@ fn run_case(sink: &mut CaseSink, stats: &mut Stats, case_seed: u64, special: Opt
     // tolerance: termination gap tolerances of the settings (reduced ones if either verdict is "Almost")
     let eps = if full { st.tol_gap_abs.max(st.tol_gap_rel).max(st.tol_feas) } else { st.reduced_tol_gap_abs.max(st.reduced_tol_gap_rel).max(st.reduced_tol_feas) };
     let (o1, o2) = (solver.solution.obj_val, fresh.solution.obj_val);
-    let mut parts = vec![];
+    let mut parts: Vec<String> = twin_conj.clone();
     // well-posed by construction: strictly convex (full positive diagonal, diagonally dominant P)
     // and x = 0 strictly feasible (b interior to the cone, equality rows 0): the verdict class
     // is then determined (solved) and independent of the scaling.  For the other instances
@@ -914,6 +975,182 @@ fn run_case(sink: &mut CaseSink, stats: &mut Stats, case_seed: u64, special: Opt
     if c1 == 0 || c2 == 0 { stats.hit("final-inconclusive"); } else { stats.hit("final-compared"); }
 }
 
+
+
+// ------------------------------------------------------------------ verdict-transition stream
+/// One solver object is driven through feasible / primal infeasible / dual infeasible versions
+/// of a box problem by accepted updates of b, q and A in every argument form; every solve is
+/// compared with (1) a fresh solver on the same user data (class, objective, iteration count)
+/// and (2) a twin (same constructor data + the same updates, never solved): bitwise equal
+/// trajectory of raw iterates, first iterate with tau = kappa = 1.
+///   min 1/2 x'Px + q'x   s.t.  x <= u,  a_j x_j <= -l_j (a_j = -1: lower bound l_j; a_j = 0: none)
+///   [+ ||x|| <= 8 as a second-order cone]
+/// feasible iff l_j <= u_j wherever a_j = -1; unbounded iff P = 0, no SOC, a_j = 0 and q_j > 0.
+#[derive(Clone)]
+struct TState { q: Vec<f64>, a: Vec<f64>, l: Vec<f64>, u: Vec<f64> }
+fn run_transition(sink: &mut CaseSink, stats: &mut Stats, case_seed: u64) {
+    let mut r = Rng::new(case_seed ^ 0x7A55);
+    let eq = r.chance(1, 2);
+    let method = match r.below(6) { 0 => "auto", 1 => "faer", _ => "qdldl" };
+    let st = settings(eq, method);
+    let n = 2 + r.below(3);
+    let soc = r.chance(1, 3);
+    let qp = r.chance(1, 3);
+    let can_di = !soc && !qp;
+    let per_col = if soc { 3 } else { 2 };
+    let m = 2 * n + if soc { n + 1 } else { 0 };
+    let P = if qp {
+        CscMatrix { m: n, n, colptr: (0..=n).collect(), rowval: (0..n).collect(), nzval: (0..n).map(|_| pdiag(&mut r)).collect() }
+    } else {
+        CscMatrix { m: n, n, colptr: vec![0; n + 1], rowval: vec![], nzval: vec![] }
+    };
+    let cones: Vec<SupportedConeT<f64>> = if soc { vec![NonnegativeConeT(2 * n), SecondOrderConeT(n + 1)] } else { vec![NonnegativeConeT(2 * n)] };
+    let a_mat = |t: &TState| -> CscMatrix<f64> {
+        let (mut colptr, mut rowval, mut nzval) = (vec![0usize], vec![], vec![]);
+        for j in 0..n {
+            rowval.push(j); nzval.push(1.0);
+            rowval.push(n + j); nzval.push(t.a[j]);
+            if soc { rowval.push(2 * n + 1 + j); nzval.push(-1.0); }
+            colptr.push(rowval.len());
+        }
+        CscMatrix { m, n, colptr, rowval, nzval }
+    };
+    let b_vec = |t: &TState| -> Vec<f64> {
+        let mut b: Vec<f64> = t.u.clone();
+        b.extend(t.l.iter().map(|x| -x));
+        if soc { b.push(8.0); b.extend(std::iter::repeat(0.0).take(n)); }
+        b
+    };
+    // expected class: 1 solved, 2 primal infeasible, 3 dual infeasible
+    let class_of = |t: &TState| -> usize {
+        if (0..n).any(|j| t.a[j] != 0.0 && t.l[j] > t.u[j]) { 2 }
+        else if can_di && (0..n).any(|j| t.a[j] == 0.0 && t.q[j] > 0.0) { 3 } else { 1 }
+    };
+    // draw a state of the requested class
+    let draw = |r: &mut Rng, cls: usize| -> TState {
+        let mut t = TState {
+            q: (0..n).map(|_| *r.pick(&[-2.0, -1.0, -0.5, 0.5, 1.0, 2.0])).collect(),
+            a: vec![-1.0; n],
+            l: (0..n).map(|_| *r.pick(&[-2.0, -1.0, -0.5])).collect(),
+            u: (0..n).map(|_| *r.pick(&[0.5, 1.0, 2.0])).collect(),
+        };
+        // some lower bounds switched off (harmless when the objective pushes upwards)
+        for j in 0..n { if r.chance(1, 4) { t.a[j] = 0.0; if can_di { t.q[j] = -t.q[j].abs(); } } }
+        match cls {
+            2 => { let k = r.below(n); t.a[k] = -1.0; t.l[k] = *r.pick(&[1.0, 2.0]); t.u[k] = *r.pick(&[-2.0, -1.0]);
+                   if r.chance(1, 2) { let k2 = r.below(n); t.a[k2] = -1.0; t.l[k2] = 2.0; t.u[k2] = -1.0; } }
+            3 => { let k = r.below(n); t.a[k] = 0.0; t.q[k] = *r.pick(&[0.5, 1.0, 2.0]); }
+            _ => {}
+        }
+        t
+    };
+    let classes: Vec<usize> = if can_di { vec![1, 2, 3] } else { vec![1, 2] };
+    let mut cur_cls = *r.pick(&classes);
+    let mut cur = draw(&mut r, cur_cls);
+    let base = cur.clone();
+    let (A0, b0) = (a_mat(&base), b_vec(&base));
+    stats.hit("stream/transition");
+    let solver = guarded(|| DefaultSolver::new(&P, &base.q, &A0, &b0, &cones, st.clone()));
+    let mut solver = match solver { Some(s) => s, None => { stats.hit("transition-constructor-panicked"); return; } };
+    let mut ops_done: Vec<Op> = vec![];
+    let mut parts: Vec<String> = vec![];
+    let mut phases: Vec<Value> = vec![];
+    let nph = 4 + r.below(5);
+    let mut vform = |r: &mut Rng, old: &[f64], new: &[f64]| -> VArg {
+        let changed: Vec<usize> = (0..new.len()).filter(|&i| old[i].to_bits() != new[i].to_bits()).collect();
+        match r.below(3) {
+            0 => VArg::Full(new.to_vec()),
+            _ if changed.is_empty() => VArg::Full(new.to_vec()),
+            k => VArg::Partial(changed.clone(), changed.iter().map(|&i| new[i]).collect(), k == 1),
+        }
+    };
+    for ph in 0..nph {
+        if ph > 0 {
+            // move to another class by accepted updates
+            let others: Vec<usize> = classes.iter().cloned().filter(|c| *c != cur_cls).collect();
+            let tgt_cls = if r.chance(1, 8) { cur_cls } else { *r.pick(&others) };
+            let tgt = draw(&mut r, tgt_cls);
+            let mut ops: Vec<Op> = vec![];
+            let (bo, bn) = (b_vec(&cur), b_vec(&tgt));
+            let (ao, an) = (a_mat(&cur), a_mat(&tgt));
+            let use_data = r.chance(1, 5);
+            let fb = vform(&mut r, &bo, &bn);
+            let fq = vform(&mut r, &cur.q, &tgt.q);
+            let fa = {
+                let changed: Vec<usize> = (0..an.nzval.len()).filter(|&i| ao.nzval[i].to_bits() != an.nzval[i].to_bits()).collect();
+                match r.below(4) {
+                    0 => MArg::Full(an.nzval.clone()),
+                    1 => MArg::Mat(an.clone()),
+                    _ if changed.is_empty() => MArg::Full(an.nzval.clone()),
+                    k => MArg::Partial(changed.clone(), changed.iter().map(|&i| an.nzval[i]).collect(), k == 2),
+                }
+            };
+            if use_data {
+                ops.push(Op::Data(MArg::Empty, fq, fa, fb));
+            } else {
+                let mut three = vec![Op::Q(fq), Op::A(fa), Op::B(fb)];
+                r.shuffle(&mut three);
+                ops.extend(three);
+            }
+            let mut all_ok = true;
+            for o in ops.iter() {
+                let code = apply(&mut solver, o);
+                stats.hit(&format!("transition-op/{}/{:?}", o.label(), code));
+                if code != Some(0) { all_ok = false; }
+                ops_done.push(o.clone());
+            }
+            if !all_ok { parts.push("1%N".into()); stats.hit("transition-update-rejected"); break; }
+            cur = tgt;
+            cur_cls = tgt_cls;
+        }
+        let expect = class_of(&cur);
+        // the solve of the re-used solver
+        let traj_u = match solve_traced(&mut solver) { Some(t) => t, None => { parts.push("1%N".into()); break; } };
+        let (cu, _) = status_class(solver.solution.status);
+        let (Ac, bc) = (a_mat(&cur), b_vec(&cur));
+        let fresh = guarded(|| { let mut f = DefaultSolver::new(&P, &cur.q, &Ac, &bc, &cones, st.clone()); f.solve(); f });
+        let twin = guarded(|| {
+            let mut t = DefaultSolver::new(&P, &base.q, &A0, &b0, &cones, st.clone());
+            for o in ops_done.iter() { apply_update_only(&mut t, o); }
+            let tj = solve_traced(&mut t);
+            (t, tj)
+        });
+        let mut pj = json!({"phase": ph, "expected_class": expect, "status_updated": format!("{:?}", solver.solution.status), "iters_updated": solver.solution.iterations, "obj_updated": solver.solution.obj_val});
+        if let Some(f) = fresh {
+            let (cf, _) = status_class(f.solution.status);
+            pj["status_fresh"] = json!(format!("{:?}", f.solution.status));
+            pj["iters_fresh"] = json!(f.solution.iterations);
+            stats.hit(&format!("transition/{}:{:?}~{:?}", expect, solver.solution.status, f.solution.status));
+            if cf != expect { stats.hit("transition-fresh-verdict-differs-from-construction(info)"); }
+            if cf != 0 {
+                // the instances are well-posed by construction: the re-used solver must reach the same class
+                parts.push(format!("c08_class_is {} {}", cn(cu), cn(cf)));
+                let z = |x: f64| if x.is_finite() { x } else { 0.0 };
+                parts.push(format!("c08_final {} {} {} {} {} 50", cn(cu), cn(cf), cdy(z(solver.solution.obj_val)), cdy(z(f.solution.obj_val)), cdy(st.tol_gap_abs.max(st.tol_gap_rel).max(st.tol_feas))));
+                parts.push(format!("c08_iters {} {}", cn(solver.solution.iterations as usize), cn(f.solution.iterations as usize)));
+                if solver.solution.iterations > 2 * f.solution.iterations + 5 {
+                    sink.record(json!({"direct_record": "iterations-of-reused-solver-exceed-2x-fresh+5", "case_seed": case_seed, "phase": ph,
+                        "iters_updated": solver.solution.iterations, "iters_fresh": f.solution.iterations,
+                        "status_updated": format!("{:?}", solver.solution.status), "status_fresh": format!("{:?}", f.solution.status)}));
+                }
+            } else { stats.hit("transition-fresh-inconclusive"); }
+        }
+        match twin {
+            Some((t, Some(traj_t))) => {
+                pj["iters_twin"] = json!(t.solution.iterations);
+                pj["status_twin"] = json!(format!("{:?}", t.solution.status));
+                parts.extend(twin_parts(&traj_u, &traj_t, solver.solution.iterations, t.solution.iterations));
+                if solver.solution.status != t.solution.status { parts.push("1%N".into()); }
+                stats.hit(if traj_u == traj_t { "twin-trajectory-bitwise-equal" } else { "twin-trajectory-DIFFERS" });
+            }
+            _ => stats.hit("twin-failed"),
+        }
+        phases.push(pj);
+    }
+    let input = json!({"case_seed": case_seed, "stream": "transition", "equilibrate": eq, "method": method, "n": n, "soc": soc, "qp": qp,
+        "base": {"q": base.q, "a": base.a, "l": base.l, "u": base.u}, "ops": ops_done.iter().map(|o| o.json()).collect::<Vec<_>>(), "phases": phases});
+    sink.case("transition", input, format!("maxl [{}]", parts.join(";\n ")), &["transition"]);
+}
 
 // ------------------------------------------------------------------ time-limit stream
 /// A re-used solver with a finite time limit must not run out of time because of earlier
@@ -1087,6 +1324,7 @@ fn main() {
             if let Some(cs) = inp.get("case_seed").and_then(|x| x.as_u64()) {
                 let stream = inp.get("stream").and_then(|x| x.as_str()).unwrap_or("");
                 if stream == "timelimit" { run_timelimit(sink, stats, cs); continue; }
+                if stream == "transition" { run_transition(sink, stats, cs); continue; }
                 let sp = match stream { "presolve" => Some(Special { presolve: true, chordal: false }), "chordal" => Some(Special { presolve: false, chordal: true }), _ => None };
                 run_case(sink, stats, cs, sp);
             }
@@ -1112,6 +1350,11 @@ fn main() {
                      else if k % 40 == 13 && blas_shim::AVAILABLE { Some(Special { presolve: false, chordal: true }) }
                      else { None };
             run_case(&mut sink, &mut stats, cs, sp);
+        }
+        let ntr = if tier == "thorough" { 500 } else { 40 };
+        for _ in 0..ntr {
+            let cs = master.next() >> 12;
+            run_transition(&mut sink, &mut stats, cs);
         }
         let ntl = if tier == "thorough" { 12 } else { 3 };
         for _ in 0..ntl {
